@@ -319,7 +319,8 @@ let () =
                        (* the system the end-to-end theorem is about must be the system that runs here:
                           TreeInv.cstep (instantiated with the harness operator) is stepped alongside
                           and its collection and store must equal the runner's after every label *)
-                       (match c.thm with
+                       (match l with THReopen -> c.thm <- Some { c_t = r'.ts; c_pend = None; c_store = r'.tstore } | _ -> ());
+                       (match (match l with THReopen -> None | _ -> c.thm) with
                         | None -> ()
                         | Some cs ->
                             let cl = (match l with
@@ -327,7 +328,10 @@ let () =
                                 | THHandover -> Some CHandover | THPBegin ch -> Some (CPBegin ch)
                                 | THPBeginFail -> Some CPBeginFail | THPPublish -> Some CPPublish
                                 | THSnap _ -> Some CSnap | THNotify | THSnapClose _ -> None
-                                | THClose _ | THReopen -> c.thm <- None; None) in
+                                | THClose _ -> c.thm <- None; None
+                                | THReopen ->
+                                    (* proved: the runner's reopen is cinit_from of the store (C04_runner_reopen_is_cinit_from) *)
+                                    c.thm <- Some { c_t = r'.ts; c_pend = None; c_store = r'.tstore }; None) in
                             (match cl, c.thm with
                              | Some cl, Some _ ->
                                  (match cstep fm0 r.tconf cs cl with
